@@ -971,11 +971,11 @@ class Terminal:
             async with self.mbx_lock:
                 stop = min(len(data), self.mbx_out_sz - 16)
                 await self.mbx_send(
-                        MBXType.COE, "HBHB4x", CoECmd.SDOREQ.value << 12,
+                        MBXType.COE, "HBHBI", CoECmd.SDOREQ.value << 12,
                         ODCmd.DOWN_INIT_CA.value if subindex is None
                         else ODCmd.DOWN_INIT.value,
                         index, 1 if subindex is None else subindex,
-                        data=data[:stop])
+                        len(data), data=data[:stop])
                 type, data = await self.mbx_recv()
                 if type is not MBXType.COE:
                     raise EtherCatError(f"expected CoE, got {type}")
